@@ -385,11 +385,19 @@ bool g_expect_secure;
 
 #define FROM_SEPARATE __CPROVER_requires(CUR_OK(from))
 /* the aliasing the API allows: the source view lies inside the bytes already written to the destination */
+/* the aliased units are BOUNDED stand-ins: symbolic-size memcpy inside one object does not finish (15 min), so the
+ * destination capacity is capped by VERIF_ALIAS_CAP bytes (all lengths, offsets and contents below it are symbolic) */
+#ifdef VERIF_ALIAS_CAP
+#    define ALIAS_BOUND __CPROVER_requires(to->capacity <= VERIF_ALIAS_CAP)
+#else
+#    define ALIAS_BOUND
+#endif
 size_t g_aoff; /* ghost: offset of the aliased source view inside the destination */
 #define FROM_INSIDE_TO                                                                                                 \
     __CPROVER_requires(__CPROVER_is_fresh(from, sizeof(*from)))                                                        \
     __CPROVER_requires(to->len > 0 && g_aoff <= to->len && PEQ(from->ptr, to->buffer + g_aoff))                        \
-    __CPROVER_requires(from->len <= to->len - g_aoff)
+    __CPROVER_requires(from->len <= to->len - g_aoff)                                                                  \
+    ALIAS_BOUND
 
 #if defined(VERIF_APPEND_DYNAMIC_HUGE)
 /* source length beyond any object: must be refused (or die in the allocator) before a byte is touched */
@@ -767,7 +775,7 @@ __CPROVER_requires(CSTR_OK(c_str))
 __CPROVER_assigns()
 __CPROVER_ensures(RET ==> array_len <= g_slen && !(g_sw == array_len && array_len < g_slen))
 __CPROVER_ensures(RET ==> (g_j < array_len ==> U8P(array)[g_j] == U8P(c_str)[g_j]))
-__CPROVER_ensures(array_len == 0 ==> RET == (g_slen == 0))
+__CPROVER_ensures(array_len == 0 && g_slen == 0 ==> RET)
 ;
 
 bool aws_array_eq_c_str_ignore_case(const void *const array, const size_t array_len, const char *const c_str)
@@ -776,7 +784,7 @@ __CPROVER_requires(CSTR_OK(c_str))
 __CPROVER_assigns()
 __CPROVER_ensures(RET ==> array_len <= g_slen && !(g_sw == array_len && array_len < g_slen))
 __CPROVER_ensures(RET ==> (g_j < array_len ==> SPEC_LOWER(U8P(array)[g_j]) == SPEC_LOWER(U8P(c_str)[g_j])))
-__CPROVER_ensures(array_len == 0 ==> RET == (g_slen == 0))
+__CPROVER_ensures(array_len == 0 && g_slen == 0 ==> RET)
 ;
 
 #define EQ_EXACT(pa, la, pb, lb)                                                                                       \
@@ -792,7 +800,7 @@ __CPROVER_ensures(array_len == 0 ==> RET == (g_slen == 0))
     __CPROVER_assigns()                                                                                                \
     __CPROVER_ensures(RET ==> (la) <= g_slen && !(g_sw == (la) && (la) < g_slen))                                      \
     __CPROVER_ensures(RET ==> (g_j < (la) ==> FOLD((pa)[g_j]) == FOLD(U8P(c_str)[g_j])))                               \
-    __CPROVER_ensures((la) == 0 ==> RET == (g_slen == 0))
+    __CPROVER_ensures((la) == 0 && g_slen == 0 ==> RET)
 #define SPEC_ID(c) (c)
 
 bool aws_byte_cursor_eq(const struct aws_byte_cursor *a, const struct aws_byte_cursor *b)
@@ -889,6 +897,99 @@ uint64_t aws_hash_byte_cursor_ptr_ignore_case(const void *item)
 __CPROVER_requires(CUR_OK((const struct aws_byte_cursor *)item))
 __CPROVER_assigns()
 __CPROVER_ensures(1)
+;
+
+/* ------------------------------------------------------------------ splitting / searching
+ * Results are sub-views of the input: stated position-wise (PEQ to input->ptr + offset, so that a caller of the
+ * replaced contract can keep "the view lies inside the input"). */
+#define VIEW_OFF(input, p) ((size_t)(POFF(p) - POFF((input)->ptr)))
+/* view {p, n} lies inside the input view */
+#define VIEW_IN(input, p, n)                                                                                           \
+    (__CPROVER_same_object((p), (input)->ptr) && POFF(p) >= POFF((input)->ptr) && VIEW_OFF(input, p) <= (input)->len && \
+     (n) <= (input)->len - VIEW_OFF(input, p))
+
+/* substr is zeroed before the first call; afterwards it is the previous piece (a view inside input).  For an input
+ * without storage (NULL, 0) the first call hands out an empty piece with some non-NULL pointer, the second ends. */
+bool aws_byte_cursor_next_split(const struct aws_byte_cursor *AWS_RESTRICT input_str, char split_on, struct aws_byte_cursor *AWS_RESTRICT substr)
+__CPROVER_requires(CUR_OK(input_str))
+__CPROVER_requires(__CPROVER_is_fresh(substr, sizeof(*substr)))
+__CPROVER_requires(substr->ptr == NULL ||
+                   (input_str->ptr == NULL && substr->len == 0 && __CPROVER_is_fresh(substr->ptr, 1)) ||
+                   (input_str->ptr != NULL && __CPROVER_pointer_in_range_dfcc(input_str->ptr, substr->ptr, input_str->ptr + input_str->len) &&
+                    substr->len <= input_str->len - VIEW_OFF(input_str, substr->ptr)))
+__CPROVER_assigns(*substr, g_mm)
+/* exact result: false when the previous piece ended at the end of the input (or the input has no storage) */
+__CPROVER_ensures(RET == (OLD(substr->ptr) == NULL ||
+                          (input_str->ptr != NULL && VIEW_OFF(input_str, OLD(substr->ptr)) + OLD(substr->len) < input_str->len)))
+__CPROVER_ensures(!RET ==> substr->ptr == NULL && substr->len == 0)
+__CPROVER_ensures(RET && input_str->ptr == NULL ==> substr->len == 0 && __CPROVER_is_fresh(substr->ptr, 1))
+__CPROVER_ensures(RET && input_str->ptr != NULL && OLD(substr->ptr) == NULL ==> PEQ(substr->ptr, input_str->ptr))
+__CPROVER_ensures(RET && input_str->ptr != NULL && OLD(substr->ptr) != NULL ==> PEQ(substr->ptr, OLD(substr->ptr) + (OLD(substr->len) + 1)))
+__CPROVER_ensures(RET && input_str->ptr != NULL ==> VIEW_IN(input_str, substr->ptr, substr->len))
+/* the piece contains no split character and is followed by one unless it ends the input */
+__CPROVER_ensures(RET && g_j < substr->len ==> substr->ptr[g_j] != (uint8_t)split_on)
+__CPROVER_ensures(RET && input_str->ptr != NULL && VIEW_OFF(input_str, substr->ptr) + substr->len < input_str->len ==>
+                  substr->ptr[substr->len] == (uint8_t)split_on)
+;
+
+/* ASSUMED local contract of aws_array_list_push_back (proved in property C09 with a different header): may grow the
+ * list, appends one element or fails, touches only the list and its storage. */
+int c01_push_back_contract(struct aws_array_list *AWS_RESTRICT list, const void *val)
+__CPROVER_requires(__CPROVER_rw_ok(list, sizeof(*list)) && list->item_size > 0 && __CPROVER_r_ok(val, list->item_size))
+__CPROVER_requires(list->data == NULL ? list->current_size == 0 : __CPROVER_rw_ok(list->data, list->current_size))
+__CPROVER_assigns(list->length, list->data, list->current_size)
+__CPROVER_assigns(list->data != NULL : __CPROVER_object_whole(list->data))
+__CPROVER_frees(list->alloc != NULL : list->data)
+__CPROVER_ensures(RET == AWS_OP_SUCCESS || RET == AWS_OP_ERR)
+__CPROVER_ensures(list->length == OLD(list->length) + (RET == AWS_OP_SUCCESS ? 1 : 0))
+__CPROVER_ensures(list->current_size >= OLD(list->current_size))
+__CPROVER_ensures((list->current_size == OLD(list->current_size) && PEQ(list->data, OLD(list->data))) ||
+                  (list->alloc != NULL && __CPROVER_is_fresh(list->data, list->current_size)))
+;
+
+/* one of the two multi-part operations of the property (may stop part-way when the list fills up):
+ * validity + frame + count.  Only the list is written; the input is read only inside its length. */
+#define LIST_OK(l)                                                                                                     \
+    (__CPROVER_is_fresh((l), sizeof(*(l))) && (l)->item_size >= sizeof(struct aws_byte_cursor) &&                      \
+     ((l)->current_size == 0 ? (l)->data == NULL : __CPROVER_is_fresh((l)->data, (l)->current_size)))
+int aws_byte_cursor_split_on_char_n(const struct aws_byte_cursor *AWS_RESTRICT input_str, char split_on, size_t n, struct aws_array_list *AWS_RESTRICT output)
+__CPROVER_requires(CUR_OK(input_str))
+__CPROVER_requires(LIST_OK(output))
+__CPROVER_assigns(g_mm, output->length, output->data, output->current_size)
+__CPROVER_assigns(output->data != NULL : __CPROVER_object_whole(output->data))
+__CPROVER_frees(output->alloc != NULL : output->data)
+__CPROVER_ensures(RET == AWS_OP_SUCCESS || RET == AWS_OP_ERR)
+__CPROVER_ensures(output->length >= OLD(output->length))
+__CPROVER_ensures(RET == AWS_OP_SUCCESS ==> output->length >= OLD(output->length) + 1)
+__CPROVER_ensures(n > 0 && n < SIZE_MAX ==> output->length - OLD(output->length) <= n + 1)
+__CPROVER_ensures(output->current_size >= OLD(output->current_size))
+;
+int aws_byte_cursor_split_on_char(const struct aws_byte_cursor *AWS_RESTRICT input_str, char split_on, struct aws_array_list *AWS_RESTRICT output)
+__CPROVER_requires(CUR_OK(input_str))
+__CPROVER_requires(LIST_OK(output))
+__CPROVER_assigns(g_mm, output->length, output->data, output->current_size)
+__CPROVER_assigns(output->data != NULL : __CPROVER_object_whole(output->data))
+__CPROVER_frees(output->alloc != NULL : output->data)
+__CPROVER_ensures(RET == AWS_OP_SUCCESS || RET == AWS_OP_ERR)
+__CPROVER_ensures(output->length >= OLD(output->length))
+__CPROVER_ensures(RET == AWS_OP_SUCCESS ==> output->length >= OLD(output->length) + 1)
+__CPROVER_ensures(output->current_size >= OLD(output->current_size))
+;
+
+/* success: *first_find is the suffix of the input that starts with to_find; failure: *first_find untouched.
+ * Not stated (existential / universal over positions): that it is the FIRST occurrence, and that a reported
+ * "not found" means there is none. */
+int aws_byte_cursor_find_exact(const struct aws_byte_cursor *AWS_RESTRICT input_str, const struct aws_byte_cursor *AWS_RESTRICT to_find, struct aws_byte_cursor *first_find)
+__CPROVER_requires(CUR_OK(input_str) && CUR_OK(to_find))
+__CPROVER_requires(__CPROVER_is_fresh(first_find, sizeof(*first_find)))
+__CPROVER_assigns(g_mm)
+__CPROVER_assigns(to_find->len >= 1 && to_find->len <= input_str->len : first_find->ptr, first_find->len)
+__CPROVER_ensures(RET == AWS_OP_SUCCESS || RET == AWS_OP_ERR)
+__CPROVER_ensures(to_find->len == 0 || to_find->len > input_str->len ==> RET == AWS_OP_ERR)
+__CPROVER_ensures(RET == AWS_OP_ERR ==> first_find->ptr == OLD(first_find->ptr) && first_find->len == OLD(first_find->len))
+__CPROVER_ensures(RET == AWS_OP_SUCCESS ==> first_find->len >= to_find->len && first_find->len <= input_str->len &&
+                  PEQ(first_find->ptr, input_str->ptr + (input_str->len - first_find->len)))
+__CPROVER_ensures(RET == AWS_OP_SUCCESS && g_j < to_find->len ==> first_find->ptr[g_j] == to_find->ptr[g_j])
 ;
 
 #endif
